@@ -28,11 +28,13 @@ var zzC05XFloats = []zzC05XF{
 	{1<<23 + 1, 30, true}, // 2^53+2^30 (single-float neighbour of 2^53)
 }
 
+var zzC05XFarInts = []int64{-1 << 63, 1<<63 - 1, 0, -1, 1, 1 << 62, -1 << 62, 1 << 31, -1 << 31, 1<<53 + 1, -(1<<53 + 1)}
+
 // VerifC05XFloatCmp: the six comparisons between a rational and a float.
 // fk 0 single-float, 1 double-float, 2 long-float (precision 128); fi index into the float
 // grid; ik 0: symbolic fixnum within +-2 of the float's value (clamped to the fixnum range),
 // 1: the concrete integer trunc(float)+off (a bignum beyond the fixnum range), 2: the
-// concrete ratio trunc(float)+off+1/2; swap != 0: the float is the first argument.
+// concrete ratio trunc(float)+off+1/2, 3: the boundary fixnum zzC05XFarInts[off]; swap != 0: the float is the first argument.
 func VerifC05XFloatCmp(fk int, fi int, ik int, off int, swap int) {
 	g := zzC05XFloats[fi]
 	vrt.Assume(fk != 0 || g.single)
@@ -79,6 +81,11 @@ func VerifC05XFloatCmp(fk int, fi int, ik int, off int, swap int) {
 	case 1:
 		iv := new(big.Int).Add(center, big.NewInt(int64(off)))
 		x, qx = zzC05XInt(iv), zzC05QInt(iv)
+	case 3:
+		// a boundary fixnum far away from the float (an out-of-range float->int64 conversion
+		// in the comparison must not make them meet)
+		v := zzC05XFarInts[off]
+		x, qx = slip.Fixnum(v), zzC05QInt(big.NewInt(v))
 	default:
 		iv := new(big.Int).Add(center, big.NewInt(int64(off)))
 		n := new(big.Int).Add(new(big.Int).Lsh(iv, 1), big.NewInt(1))
@@ -123,9 +130,9 @@ func VerifC05XFloatCmp(fk int, fi int, ik int, off int, swap int) {
 // (round to nearest even, computed with math/big on the exact value).
 func zzC05XRoundsTo(q zzC05Q, fk int, fv float64) bool {
 	if fk == 2 {
-		// long-float: slip converts integers with big.Float.SetInt at the integer's own
-		// precision (exact) and ratios through float64
-		if q.d.Cmp(big.NewInt(1)) == 0 {
+		// long-float: slip converts a bignum with big.Float.SetInt at the integer's own
+		// precision (exact), a fixnum and a ratio through float64 (NormalizeNumber)
+		if q.d.Cmp(big.NewInt(1)) == 0 && !q.n.IsInt64() {
 			return false
 		}
 	}
